@@ -288,6 +288,10 @@ func (c *caseRun) step(st step) {
 			variant = "back-to-anchor"
 			in = e.sameAnchorInst(c.rng, sl.in)
 			r.Count(typ+"_upgrades_back_to_the_installed_anchor_after_updates", 1)
+		case (variant == "back-to-anchor" || variant == "later" && c.rng.Intn(3) == 0) && sl.exists && sl.typ == typ && typ == tTM && sl.in != nil && !sl.unusable && sl.updates > 0 && sl.in.tmLatest > int64(sl.in.installed.RevisionHeight):
+			variant = "tracked-height"
+			in, err = e.trackedTM(c.rng, sl.in)
+			r.Count("tendermint_upgrades_to_a_height_the_client_already_tracks", 1)
 		case variant == "later" && sl.exists && sl.typ == typ && sl.in != nil && !sl.unusable:
 			in, err = e.laterInst(c.rng, sl.in)
 		case variant == "flawed":
